@@ -265,3 +265,34 @@ func SetClock(mode string) {
 		failpoint.Enable(fpSlow, "return(true)")
 	}
 }
+
+// Populate stores n unrelated keys below the world's root the way a populated cluster has them
+// (store / region / member / gc / rule metadata sort before "<root>/timestamp"; a tenth as many keys
+// sort after it), so that whatever reads the root by range or by pages sees a realistic key count.
+func (w *World) Populate(n int) error {
+	kinds := []string{"raft/s/%020d", "raft/r/%020d", "member/%d/binary_version", "gc/safe_point/service/svc-%d", "rules/pd-%08d"}
+	var ops []clientv3.Op
+	flush := func() error {
+		if len(ops) == 0 {
+			return nil
+		}
+		_, err := w.E.Observer.Txn(context.Background()).Then(ops...).Commit()
+		ops = ops[:0]
+		return err
+	}
+	for i := 0; i < n+n/10; i++ {
+		var k string
+		if i < n {
+			k = path.Join(w.Root, fmt.Sprintf(kinds[i%len(kinds)], i))
+		} else {
+			k = path.Join(w.Root, fmt.Sprintf("zz/%d", i))
+		}
+		ops = append(ops, clientv3.OpPut(k, "populated-by-the-harness"))
+		if len(ops) == 100 {
+			if err := flush(); err != nil {
+				return err
+			}
+		}
+	}
+	return flush()
+}
